@@ -136,6 +136,9 @@ def deb_scenarios(r, thorough):
         ("two-producers", [[("event", 1), ("sleep", 5), ("event", 2)], [("event", 7), ("sleep", 12), ("stop",), ("join",)]]),
         ("stop-mid-debounce", [[("event", 1), ("sleep", 2), ("stop",), ("join",)]]),
         ("stop-twice", [[("event", 1), ("stop",)], [("sleep", 1), ("stop",), ("join",)]]),
+        # stop() arrives at the very instant the debounce interval runs out (batch delivery and stop() race)
+        ("stop-at-deadline", [[("event", 1), ("sleep", INTERVAL_TICKS), ("stop",), ("join",)]]),
+        ("stop-at-deadline-2", [[("event", 1), ("sleep", 2), ("event", 2)], [("sleep", 2 + INTERVAL_TICKS), ("stop",), ("join",)]]),
     ]
     for i in range(30 if thorough else 8):
         scripts = []
